@@ -8,6 +8,7 @@ import (
 	"sort"
 	"strconv"
 	"strings"
+	"sync"
 	"testing"
 
 	"github.com/uber-go/tally"
@@ -138,6 +139,12 @@ func c21Exec(t *verifh.T, c verifh.Case) {
 			g.r.Refresh()
 			lastTbl = ""
 			t.Op(op[1:], c21NodesTok(g.r), "filterarg="+c21AddrsTok(g.filter.lastArg))
+		case op[1] == "conc" && len(op) == 5:
+			g := rings[op[2]]
+			if g == nil {
+				return
+			}
+			c21Concurrent(t, g, op)
 		case op[1] == "members" && len(op) == 3:
 			g := rings[op[2]]
 			if g == nil {
@@ -190,6 +197,75 @@ func c21Exec(t *verifh.T, c verifh.Case) {
 		}
 	}
 	t.End()
+}
+
+// c21Concurrent: `op conc <rid> <goroutines> <calls>`: many goroutines call Locations on ONE ring (the ring
+// takes only a read lock there) while another goroutine keeps refreshing it with unchanged membership, as
+// Monitor does; every answer must equal the answer of a second ring with the same members and health that
+// is only used sequentially.
+func c21Concurrent(t *verifh.T, g *c21Ring, op []string) {
+	n, _ := strconv.Atoi(op[3])
+	calls, _ := strconv.Atoi(op[4])
+	if n < 1 || n > 64 || calls < 1 || calls > 1000000 {
+		return
+	}
+	ref := New(Config{MaxReplica: g.r.config.MaxReplica}, &c21List{append([]string(nil), g.list.cur...)},
+		&c21Filter{healthy: append([]string(nil), g.filter.healthy...), raw: g.filter.raw}, tally.NoopScope)
+	var ds []core.Digest
+	var want []string
+	for i := 0; i < 64; i++ {
+		d, err := c21Digest(fmt.Sprintf("%04x", (i*1021+7)%65536))
+		if err != nil {
+			panic(err)
+		}
+		ds = append(ds, d)
+		want = append(want, c21AddrsTok(ref.Locations(d)))
+	}
+	var mu sync.Mutex
+	first := ""
+	stop := make(chan struct{})
+	var rw sync.WaitGroup
+	rw.Add(1)
+	go func() {
+		defer rw.Done()
+		for {
+			select {
+			case <-stop:
+				return
+			default:
+				g.r.Refresh()
+			}
+		}
+	}()
+	var wg sync.WaitGroup
+	for w := 0; w < n; w++ {
+		wg.Add(1)
+		go func(w int) {
+			defer wg.Done()
+			for i := 0; i < calls; i++ {
+				j := (i + w*7) % len(ds)
+				var got string
+				if p := verifh.Protect(func() { got = c21AddrsTok(g.r.Locations(ds[j])) }); p != "" {
+					got = "panic:" + verifh.Str(p)
+				}
+				if got != want[j] {
+					mu.Lock()
+					if first == "" {
+						first = "shard=" + ds[j].ShardID() + " concurrent=" + got + " sequential=" + want[j]
+					}
+					mu.Unlock()
+					return
+				}
+			}
+		}(w)
+	}
+	wg.Wait()
+	close(stop)
+	rw.Wait()
+	t.Op(op[1:], "ok")
+	if first != "" {
+		t.PropFail("wrong-replica-set-concurrent", strings.Fields(first)...)
+	}
 }
 
 func c21Op(xs ...string) []string { return append([]string{"op"}, xs...) }
@@ -265,6 +341,36 @@ func c21SweepCase(r *verifh.Rand, members []string, specs []c21RingSpec, shards 
 		}
 	}
 	return c
+}
+
+// TestVerif_C21Concurrent: concurrent Locations callers on one ring (built with -race in the thorough tier).
+func TestVerif_C21Concurrent(t *testing.T) {
+	log.SetGlobalLogger(zap.NewNop().Sugar())
+	tr := verifh.Open("ring")
+	defer tr.Close()
+	cases, replayOnly := verifh.InputCases("ring")
+	for _, c := range cases {
+		for _, o := range c.Ops {
+			if len(o) > 1 && o[1] == "conc" {
+				c21Exec(tr, c)
+				break
+			}
+		}
+	}
+	if replayOnly {
+		return
+	}
+	r := verifh.NewRand(verifh.Seed(), "c21conc")
+	for i := 0; i < verifh.Scale(6, 40); i++ {
+		ms := c21Hosts(r, 2+r.Intn(7))
+		hs := c21Subset(ms, 1+r.Intn(1<<uint(len(ms))-1))
+		c := verifh.Case{Ops: [][]string{
+			c21Op("new", "r0", strconv.Itoa(1+r.Intn(4)), c21AddrsTok(ms), c21AddrsTok(hs)),
+			c21Op("conc", "r0", "8", strconv.Itoa(verifh.Scale(1500, 6000))),
+			c21Op("members", "r0"), c21Op("loc", "r0", "00ff")}}
+		c21Exec(tr, c)
+		tr.Count("concurrent_cases", 1)
+	}
 }
 
 func TestVerif_C21(t *testing.T) {
